@@ -91,6 +91,9 @@ class Ref(object):
         self.info = {p: (k, i) for p, k, i in P.walk_scenarios(prog)}
         self.mechanisms = set()
         self.fault_sites = []   # "hookname@kind" of every injected fault that fired
+        self.visited = []       # scenario paths in the order their run was started (incl. de-selected ones)
+        self.processed = {}     # scenario path -> indexes of the steps that get a match/result event pair
+        self.not_started = set()  # feature indexes never started (--stop / abort / failed before_all)
 
     # -- selection
     def selected(self, tags):
@@ -175,6 +178,7 @@ class Ref(object):
         for fi, f in enumerate(self.prog):
             if no_more:
                 self.never_started(f, (fi,))
+                self.not_started.add(fi)
                 continue
             failed = self.container(f, (fi,), (), "feature")
             if failed:
@@ -280,6 +284,8 @@ class Ref(object):
         skip_untested = self.aborted
         entry_aborted = self.aborted
         self.push("scenario")
+        self.visited.append(path)
+        proc = self.processed.setdefault(path, [])
         if not self.dry and sel:
             hooks_called = True
             for t in own:
@@ -302,7 +308,8 @@ class Ref(object):
         elif not sel:
             sts = [{"skipped"}] * len(steps)
         elif self.dry:
-            for sid, o in steps:
+            for idx, (sid, o) in enumerate(steps):
+                proc.append(idx)
                 if o == "undefined":
                     sts.append({"undefined", "untested_undefined"})
                     self.undefined_seen = True
@@ -321,6 +328,7 @@ class Ref(object):
                     else:
                         sts.append({"skipped"})
                     continue
+                proc.append(idx)
                 if o == "undefined":
                     sts.append({"undefined"})
                     self.undefined_seen = True
